@@ -7,6 +7,13 @@ Property theorems only (helper lemmas: `Proofs/BrokerFanout*.lean`).  Model:
 store `Model/Topics.lean`; specification: `Spec/Broker.lean` (`subCode`).  All
 theorems quantify over every state satisfying the representation invariant
 `Inv` (which `step` preserves from the initial state: `C07_inv_step`).
+
+"Path of a filter": `(entryLevels f).1`, the levels the store's entry points
+walk - `levels f` (the iteration of `nextTopicLevel`) unless `f` begins with
+'$', in which case `checkSys` turns it away before any level is read and
+`entryLevels f = ([], false)` (`Proofs.Topics.entryLevels_of_not_sys/_of_sys`).
+`good f`: no empty level (finding B3) and not beginning with '$' (outside the
+property's quantifier).
 -/
 import Mqtt.Proofs.BrokerFanoutGen
 
@@ -15,8 +22,8 @@ set_option linter.unusedSimpArgs false
 namespace Mqtt.Properties.C07
 open Mqtt.Iface.Broker Mqtt.Model.Broker Mqtt.Proofs.Broker
 open Mqtt.Model.Topics (MemTopics levels)
-open Mqtt.Proofs.Topics (good abs WF)
-open Mqtt.Spec.Match (split validFilter validName matchLevels)
+open Mqtt.Proofs.Topics (good abs WF entryLevels)
+open Mqtt.Spec.Match (split validFilter validName matchLevels dollar)
 
 /-- the return code for one requested (filter, QoS byte), read off the topic
 store's own answer: the granted QoS `min(requested, server maximum)` if
@@ -100,9 +107,9 @@ example :
        .send 1 (.publish { qos := 0, retain := true, topic := [97, 47, 98], pktid := 0, payload := [1, 2] })] := by
   decide
 
-/-- For filters without empty and without '$'-led levels (findings B3, B4 are
-outside), the codes are the specification's: `min(q, 2)` for a valid filter
-with QoS byte <= 2, else 0x80. -/
+/-- For filters without empty levels (finding B3 is outside) that do not begin
+with '$' (outside the property's quantifier), the codes are the
+specification's: `min(q, 2)` for a valid filter with QoS byte <= 2, else 0x80. -/
 theorem C07_codes_spec_partial (mt : MemTopics) (c : Nat) (topics : List (Bytes × Nat))
     (hg : ∀ tq ∈ topics, good tq.1 = true) :
     topics.map (grantCode mt c) = topics.map (fun tq => Mqtt.Spec.Broker.subCode tq.1 tq.2) := by
@@ -112,15 +119,30 @@ theorem C07_codes_spec_partial (mt : MemTopics) (c : Nat) (topics : List (Bytes 
   simp only [grantCode, modelCode, subscribe_snd]
   cases accepts tq.1 tq.2 <;> simp
 
-/-- the full statement (all filters) -/
+/-- B4, repaired: "a/$b" and "+/$b" are valid filters without empty levels;
+the broker grants them like the specification does, a wildcard level still may
+not continue with '$' ("+$b": 0x80 on both sides), and a filter beginning with
+'$' is refused by the code (the specification's `subCode` is not asked about
+those: they are outside the property's quantifier). -/
+theorem C07_codes_dollar_level :
+    good [97, 47, 36, 98] = true ∧ good [43, 47, 36, 98] = true ∧
+    [([97, 47, 36, 98], 1), ([43, 47, 36, 98], 2), ([43, 36, 98], 1)].map (grantCode MemTopics.new 1) = [1, 2, 0x80] ∧
+    [([97, 47, 36, 98], 1), ([43, 47, 36, 98], 2), ([43, 36, 98], 1)].map
+      (fun tq => Mqtt.Spec.Broker.subCode tq.1 tq.2) = [1, 2, 0x80] ∧
+    grantCode MemTopics.new 1 ([36, 83, 89, 83], 1) = 0x80 := by decide
+
+/-- the full statement: all filters that do not begin with '$' -/
 def C07_codes_spec_full : Prop :=
-  ∀ (mt : MemTopics) (c : Nat) (topics : List (Bytes × Nat)),
+  ∀ (mt : MemTopics) (c : Nat) (topics : List (Bytes × Nat)), (∀ tq ∈ topics, dollar tq.1 = false) →
     topics.map (grantCode mt c) = topics.map (fun tq => Mqtt.Spec.Broker.subCode tq.1 tq.2)
 
-/-- false of the code as it is (finding B4): "a/$b" is a valid filter, the broker answers 0x80 -/
+/-- False of the code as it is, in the family of finding B3 (empty levels): the
+empty filter - a single empty level, not a filter at all by 4.7.3 - is accepted
+by the store (`sinsert` with `len(topic) == 0` registers the subscriber at the
+root) and answered with the granted QoS where the specification demands 0x80. -/
 theorem C07_codes_spec_full_counterexample : ¬ C07_codes_spec_full := by
   intro h
-  have := h MemTopics.new 1 [([97, 47, 36, 98], 1)]
+  have := h MemTopics.new 1 [([], 1)] (by decide)
   exact absurd this (by decide)
 
 /-- the regenerated server maximum is the protocol's -/
@@ -166,8 +188,8 @@ packet names the same filter (which would replace the QoS), the trie holds the
 entry (path of the filter, `c`, that request's return code). -/
 theorem C07_granted_is_held (b : B) (hinv : Inv b) (c id : Nat) (pre post : List (Bytes × Nat))
     (t : Bytes) (q : Nat) (hl : b.alive c = true) (ha : accepts t q = true)
-    (hpost : ∀ tq ∈ post, accepts tq.1 tq.2 = true → (levels tq.1).1 ≠ (levels t).1) :
-    ((levels t).1, c, grantCode b.topics c (t, q)) ∈
+    (hpost : ∀ tq ∈ post, accepts tq.1 tq.2 = true → (entryLevels tq.1).1 ≠ (entryLevels t).1) :
+    ((entryLevels t).1, c, grantCode b.topics c (t, q)) ∈
       abs (packet b c (.subscribe id (pre ++ (t, q) :: post))).1.topics.sroot := by
   have hp := packet_subscribe_sroot b hinv c id (pre ++ (t, q) :: post) hl
   rw [hp.mem_iff]
@@ -185,8 +207,8 @@ theorem C07_unsubscribe_effect (b : B) (hinv : Inv b) (c id : Nat) (topics : Lis
     Inv (packet b c (.unsubscribe id topics)).1 ∧
     (abs (packet b c (.unsubscribe id topics)).1.topics.sroot).Perm
       (entriesAfterUnsub c topics (abs b.topics.sroot)) ∧
-    (∀ t ∈ topics, (levels t).2 = true → ∀ q,
-      ((levels t).1, c, q) ∉ abs (packet b c (.unsubscribe id topics)).1.topics.sroot) ∧
+    (∀ t ∈ topics, (entryLevels t).2 = true → ∀ q,
+      ((entryLevels t).1, c, q) ∉ abs (packet b c (.unsubscribe id topics)).1.topics.sroot) ∧
     ((abs (packet b c (.unsubscribe id topics)).1.topics.sroot).filter (fun e => e.2.1 != c)).Perm
       ((abs b.topics.sroot).filter (fun e => e.2.1 != c)) := by
   have hp := packet_unsubscribe_sroot b hinv c id topics hl
@@ -204,9 +226,9 @@ filter's path matches is forwarded to the connection - same topic, same
 payload, QoS min(publish QoS, return code of that filter), RETAIN 0. -/
 theorem C07_effective_after_suback_partial (b : B) (hinv : Inv b) (c id : Nat) (pre post : List (Bytes × Nat))
     (t : Bytes) (q : Nat) (hc : c < cbBase) (hl : b.alive c = true) (ha : accepts t q = true)
-    (hpost : ∀ tq ∈ post, accepts tq.1 tq.2 = true → (levels tq.1).1 ≠ (levels t).1)
+    (hpost : ∀ tq ∈ post, accepts tq.1 tq.2 = true → (entryLevels tq.1).1 ≠ (entryLevels t).1)
     (p : Pub) (hg : good p.topic = true) (hn : validName p.topic = true) (hq : p.qos ≤ 2)
-    (hid : p.pktid ≠ 0 ∨ p.qos = 0) (hm : matchLevels (levels t).1 (split p.topic) = true) :
+    (hid : p.pktid ≠ 0 ∨ p.qos = 0) (hm : matchLevels (entryLevels t).1 (split p.topic) = true) :
     delivery p c (grantCode b.topics c (t, q)) ∈
       (onPublish (packet b c (.subscribe id (pre ++ (t, q) :: post))).1 ⟨p, false⟩).2.2.1 := by
   have hmem := C07_granted_is_held b hinv c id pre post t q hl ha hpost
@@ -239,7 +261,7 @@ theorem C07_none_after_unsuback_partial (b : B) (hinv : Inv b) (c id : Nat) (top
     ∀ o ∈ (onPublish (packet b c (.unsubscribe id topics)).1 ⟨p, false⟩).2.2.1, target o = some c →
       ∃ e ∈ abs (packet b c (.unsubscribe id topics)).1.topics.sroot,
         e.2.1 = c ∧ matchLevels e.1 (split p.topic) = true ∧
-        (∀ t ∈ topics, (levels t).2 = true → e.1 ≠ (levels t).1) ∧
+        (∀ t ∈ topics, (entryLevels t).2 = true → e.1 ≠ (entryLevels t).1) ∧
         dropCallRetain o = dropCallRetain (delivery p c e.2.2) := by
   intro o ho htc
   obtain ⟨hinv', _, habs, _⟩ := C07_unsubscribe_effect b hinv c id topics hl
@@ -259,7 +281,7 @@ theorem C07_none_after_unsuback_partial (b : B) (hinv : Inv b) (c id : Nat) (top
   refine ⟨e, he1, hce, he2.1, ?_, ?_⟩
   · intro t ht hlv hpath
     apply habs t ht hlv e.2.2
-    have : ((levels t).1, c, e.2.2) = e := by rw [← hpath, ← hce]
+    have : ((entryLevels t).1, c, e.2.2) = e := by rw [← hpath, ← hce]
     rw [this]
     exact he1
   · rw [← heq, hce]; rfl
@@ -274,8 +296,8 @@ example :
     (onPublish b1 ⟨p, false⟩).2.2.1 = [.send 2 (.publish { qos := 1, topic := [97, 47, 98], pktid := 3, payload := [9] })] ∧
     (onPublish b2 ⟨p, false⟩).2.2.1 = [] := by decide
 
-/-- Against the reference broker, for requests whose filters have no empty and
-no '$'-led level: if the trie holds exactly the specification's held
+/-- Against the reference broker, for requests whose filters have no empty
+level and do not begin with '$': if the trie holds exactly the specification's held
 subscriptions (`HeldInv`: entry (split filter, owner, QoS) per held
 subscription), it does so again after a SUBSCRIBE or UNSUBSCRIBE step of both
 (`Spec.Broker.step1`, any specification state with these held subscriptions
